@@ -163,7 +163,10 @@ func (tb *ATable) RegisterPropertyCallback(
 		*cbListPtr = make([]PropertyCallback, 0, 10)
 	}
 
-	*cbListPtr = append(*cbListPtr, theNewCallback)
+	// Cells are copied by value and a copy shares the backing array of each
+	// callback list, so never append into spare capacity: clamp, to get a copy.
+	cbList := *cbListPtr
+	*cbListPtr = append(cbList[:len(cbList):len(cbList)], theNewCallback)
 	return nil
 }
 
